@@ -294,6 +294,15 @@ func runMerge(a, b *tree, pol string, fos []fieldOpt, repr string, rng *rand.Ran
 			// an empty top-level map is a valid (empty) source; nil means "nothing"
 			src = map[string]interface{}{}
 		}
+		if len(fos) > 0 {
+			// an Option is a VALUE: the per-field options of this case are first used in two other calls, followed and
+			// preceded by per-field options for other names - nothing of that may be remembered when they are used again
+			extra := []ucfg.Option{ucfg.FieldAppendValues("a"), ucfg.FieldAppendValues("b"), ucfg.FieldAppendValues("c"),
+				ucfg.FieldPrependValues("a.b"), ucfg.FieldReplaceValues("a.c"), ucfg.FieldAppendValues("*")}
+			scratch := map[string]interface{}{"a": []interface{}{1}, "zz": map[string]interface{}{"q": []interface{}{2}}}
+			ucfg.New().Merge(scratch, append(append([]ucfg.Option{}, opts...), extra...)...)
+			ucfg.New().Merge(scratch, append(append([]ucfg.Option{opts[0]}, extra...), opts[1:]...)...)
+		}
 		if err := dst.Merge(src, opts...); err != nil {
 			out.Err = errClass(err)
 			return
